@@ -40,6 +40,9 @@ type PosCase struct {
 	// reconfigured (SetStrict(false), AllowArray(false)) and wrapped again: the
 	// handler made first keeps what it was made with.
 	Later bool `json:"later,omitempty"`
+	// Prev: parameters of a request the same handler served before (its outcome
+	// is not judged): every request is decoded on its own, nothing is left over.
+	Prev *string `json:"prev,omitempty"`
 }
 
 func makeRequest(params *string) *jrpc2.Request {
@@ -198,6 +201,14 @@ func runPos(_ *testing.T, c PosCase) engine.Verdict {
 	var herr error
 	if p := func() (p any) {
 		defer func() { p = recover() }()
+		if c.Prev != nil {
+			if preq := makeRequest(c.Prev); preq != nil {
+				h(context.Background(), preq)
+				mu.Lock()
+				calls = nil
+				mu.Unlock()
+			}
+		}
 		res, herr = h(context.Background(), req)
 		return nil
 	}(); p != nil {
@@ -367,6 +378,17 @@ func genPos(t *rapid.T) PosCase {
 		} else {
 			elems = append(elems, c15.GenJSON(t, a))
 		}
+	}
+	if len(elems) > 0 && rapid.IntRange(0, 3).Draw(t, "prev") == 0 {
+		// an earlier request: every position given, one of them perhaps wrongly typed
+		pe := make([]string, len(elems))
+		for i, a := range c.Args {
+			pe[i] = c15.GenJSON(t, a)
+		}
+		if rapid.Bool().Draw(t, "prevbad") {
+			pe[len(pe)-1] = `{"zz":[1]}`
+		}
+		c.Prev = p("[" + strings.Join(pe, ",") + "]")
 	}
 	switch rapid.IntRange(0, 9).Draw(t, "pk") {
 	case 0:
